@@ -383,8 +383,12 @@ def _align(c, it, ta, task_chunks, tag, j):
             raise Unsupported("irregular storage chunks without an alignment contract")
         return h(it, ta, task_chunks, tag, j)
     for i, (tc, sc, n) in enumerate(zip(task_chunks, st, ta.shape)):
-        _oblige(it, f"{tag}.align:task-region-is-whole-storage-chunks[out{j},axis{i}]",
-                tb((tc % sc == 0) | (tc >= n)))
+        if isinstance(sc, int) and not isinstance(sc, bool) and sc == 0:
+            # storage chunk of extent 0 (zero-extent axis): no chunk can be shared; only the covering clause remains
+            cond = tb(tc >= n)
+        else:
+            cond = tb((tc % sc == 0) | (tc >= n))
+        _oblige(it, f"{tag}.align:task-region-is-whole-storage-chunks[out{j},axis{i}]", cond)
 
 
 def _check_key(c, it, key, by_name, tag, pos):
